@@ -31,7 +31,7 @@ theorem round_at_contract (B : Nat) (hB : 2 ≤ B) (m : Mode) (c : Coarse) (hc :
     exact_mod_cast this
   have hspec := roundFract_spec B (by omega) m c hc hi lo k hlo hlt
   have hic := icontract_of_spec m hi lo _ hD hlo hlt _ hspec
-  have := contract_of_icontract B hB m p k hp _ _ _ e hic hulp
+  have := contract_of_icontract B hB m p k hp _ _ _ e hic ⟨_, rfl⟩ hulp
   rw [FRepr.new_value B hB0, bpowQ_add B hB0, bpowQ_nat]
   have e1 : ((hi + rInt (roundFract B m c hi lo k) : Int) : ℚ) * (bpowQ B e * ((B ^ k : Nat) : ℚ)) =
       (((hi + rInt (roundFract B m c hi lo k)) * ((B ^ k : Nat) : Int) : Int) : ℚ) * bpowQ B e := by
